@@ -169,6 +169,9 @@ func (r *Run) callVF(caller *frame, pos token.Pos, fn *ssa.Function, args []Valu
 		})
 		r.sched.settle()
 		return mkBool(!done)
+	case "Deviations":
+		r.schedBudget = int(r.concInt(args[0], "vf.Deviations k"))
+		return nil
 	case "Leaked":
 		r.sched.settle()
 		out := ""
